@@ -491,6 +491,25 @@ pub fn c07(a: &Args) {
         }
     }
 
+    // (2c) at the cap of the domain: one layer of 200 x 120 cells in the long encoding (the largest layer the property speaks about:
+    //      size limits of the container - chunk payloads, length fields - are reached here or never), with every protection flag,
+    //      and with blank rows at several heights
+    if only.is_empty() || only == "cap" {
+        let mut r = rng(seed, 777);
+        for variant in 0..(if thorough { 12 } else { 7 }) {
+            let (mut buf, env) = new_doc(&mut r, (200, 120), 300, &[0], 16, false);
+            let (w, h) = (200usize, 120usize);
+            let mut rows: Vec<Vec<AttributedChar>> = (0..h).map(|_| (0..w).map(|_| { let mut c = short_cell(&mut r, &env); c.ch = char::from_u32(0x100 + r.gen_range(0..0x2000)).unwrap_or('A'); c }).collect()).collect();
+            if variant >= 4 { for y in [19usize, 20, 21, 39, 59, 60, 100] { if (y + variant) % 2 == 0 { rows[y] = vec![]; } } }
+            let mut l = make_layer(format!("cap {variant}"), w as i32, h as i32, rows);
+            match variant % 4 { 1 => l.properties.is_visible = false, 2 => l.properties.is_locked = true, 3 => { l.properties.has_alpha_channel = true; l.properties.is_alpha_channel_locked = true; } _ => {} }
+            if variant >= 8 { l.properties.is_position_locked = true; l.set_offset((-50, 50)); }
+            buf.layers.push(l);
+            run_case(&mut out, &format!("cap-{variant}"), "cap", &buf);
+            ndocs += 1;
+        }
+    }
+
     // (3) seeded random documents
     if only.is_empty() || only == "rnd" {
         let n = a.usize("docs", if thorough { 3000 } else { 300 });
